@@ -163,6 +163,8 @@ def main():
     discharged = thm_ok + (gen_obl if ok_build and 'translator' not in broken else 0) + (1 if corr_ok else 0)
     extra = dict(getattr(mod, 'EVIDENCE', {}))
     extra['theorems'] = info
+    if common.SLOW_RETRIES[0]:
+        ctx.notes.append('%d calls hit their wall-clock alarm once and completed when re-run with a longer one (machine under load)' % common.SLOW_RETRIES[0])
     extra['notes'] = ctx.notes
     extra['broken'] = broken
     extra['known_findings_seen'] = sorted(ctx.known_hits)
